@@ -186,8 +186,45 @@ func genProgram(r *gen.Rand) *program {
 			}
 		}
 		u.Hs = mkHs(true)
-		// a rewriting middleware is typical: bias Use units towards rewrite effects a bit more
 		p.Units = append(p.Units, u)
+		// near-twin registered right behind: same call, path differing only in letter case,
+		// trailing slash or escaping (the router folds *identical* consecutive registrations
+		// into one route; near-twins must stay separate routes)
+		if len(u.RoutePath) == 0 && u.Kind != "usenp" && r.Chance(1, 5) {
+			t := u
+			t.Path = twinPath(r, u.Path)
+			t.Hs = mkHs(true)
+			p.Units = append(p.Units, t)
+		}
+	}
+	return p
+}
+
+func twinPath(r *gen.Rand, p string) string {
+	switch r.Intn(4) {
+	case 0: // flip the case of one letter
+		b := []byte(p)
+		for i := range b {
+			j := (i + r.Intn(len(b))) % len(b)
+			if b[j] >= 'a' && b[j] <= 'z' && (j == 0 || (b[j-1] != ':' && b[j-1] != '<')) {
+				b[j] -= 32
+				return string(b)
+			}
+		}
+	case 1:
+		if strings.HasSuffix(p, "/") && len(p) > 1 {
+			return p[:len(p)-1]
+		}
+		return p + "/"
+	case 2: // escaping
+		if strings.Contains(p, `\`) {
+			return strings.Replace(p, `\`, "", 1)
+		}
+		for _, ch := range []string{":", "*", "+"} {
+			if i := strings.Index(p, ch); i >= 0 {
+				return p[:i] + `\` + p[i:]
+			}
+		}
 	}
 	return p
 }
